@@ -116,7 +116,59 @@ def check_builders(fx, R, S):
     if okq:
         R.holds('R2', 'quaternionToEulerAngles<%s>' % S, 'extraction of the normalised quaternion\'s matrix', fx.rel(fqe['loc']), 'E-SIB')
     else:
-        R.undecided('R2', 'quaternionToEulerAngles<%s>' % S, 'idiom not recognised: %s' % (stmts_sx(fqe),))
+        verdict = quaternion_witnesses(fx, fqe)
+        if verdict[0] == 'violated':
+            R.violated('R2', 'quaternionToEulerAngles:closed-form', verdict[1] + ' [%s]' % S, fx.rel(fqe['loc']), 'E-ORD')
+        else:
+            R.undecided('R2', 'quaternionToEulerAngles<%s>' % S, 'not the enumerated form (extraction of the normalised quaternion\'s matrix); %s' % verdict[1])
+
+
+def quaternion_witnesses(fx, f):
+    """The function is read with symbolic quaternion coefficients and evaluated on witness quaternions k * q(roll, pitch, yaw) (unit and
+    non-unit, the quantifier has both); the angles must come back modulo 2 pi."""
+    qs = {n: sp.Symbol('q' + n, real=True) for n in 'wxyz'}
+    pname = f['params'][0]['name']
+
+    def hook(rd, e, st, ctx):
+        if e.get('k') == 'MCall' and not e.get('args'):
+            o_ = strip_casts(e['obj'])
+            if o_.get('k') == 'Ref' and o_.get('name') == pname:
+                if e.get('m') in qs:
+                    return [(qs[e['m']], st)]
+                if e.get('m') == 'squaredNorm':
+                    return [(sum(v * v for v in qs.values()), st)]
+                if e.get('m') == 'norm':
+                    return [(sp.sqrt(sum(v * v for v in qs.values())), st)]
+        return ext_hook(rd, e, st, ctx)
+    try:
+        sts = sym.Reader(fx, call_hook=hook, member_hook=mat.member_hook).run(f)
+    except sym.Unsupported as u:
+        return ('undecided', 'not interpretable: %s' % u)
+    if len(sts) != 1 or not isinstance(sts[0].ret, sp.MatrixBase):
+        return ('undecided', 'result not readable as a vector on a single path')
+    out = sts[0].ret
+    two_pi = 2 * sp.pi
+    unmod = lambda e_: e_.replace(lambda x: isinstance(x, sp.core.function.AppliedUndef) and len(x.args) == 1 and str(x.func) == 'mod2pi', lambda x: x.args[0] - two_pi * sp.floor(x.args[0] / two_pi))
+    n_ok = 0
+    for (rv, pv, yv) in ((sp.Rational(3, 10), sp.Rational(1, 2), -sp.Rational(2, 5)), (-sp.Rational(2, 5), -sp.Rational(6, 5), sp.Rational(11, 10)), (sp.Rational(5, 2), sp.Rational(1, 10), sp.Integer(3))):
+        cr, sr, cp, sp_, cy, sy = sp.cos(rv / 2), sp.sin(rv / 2), sp.cos(pv / 2), sp.sin(pv / 2), sp.cos(yv / 2), sp.sin(yv / 2)
+        unit = {'w': cr * cp * cy + sr * sp_ * sy, 'x': sr * cp * cy - cr * sp_ * sy, 'y': cr * sp_ * cy + sr * cp * sy, 'z': cr * cp * sy - sr * sp_ * cy}
+        for k in (sp.Integer(1), sp.Rational(1, 2), sp.Integer(2), sp.Rational(999, 1000)):
+            env = {qs[n]: k * unit[n] for n in qs}
+            try:
+                got = [sp.N(unmod(out[i, 0]).subs(env), 40) for i in range(3)]
+            except (TypeError, ValueError):
+                return ('undecided', 'not evaluable on the witness quaternions')
+            want = [sp.N(a_ - two_pi * sp.floor(a_ / two_pi), 40) for a_ in (rv, pv, yv)]
+            if any(not g_.is_real for g_ in got):
+                return ('violated', 'for the quaternion of (roll %s, pitch %s, yaw %s) scaled to norm %s (non-unit quaternions are in the quantifier) the extracted angles are %s: not a real number' % (
+                    rv, pv, yv, k, [str(sp.N(g_, 6)) for g_ in got]))
+            err = max(min(abs(g_ - w_), abs(abs(g_ - w_) - sp.N(two_pi, 40))) for g_, w_ in zip(got, want))
+            if err > sp.Float('1e-9'):
+                return ('violated', 'for the quaternion of (roll %s, pitch %s, yaw %s) scaled to norm %s (non-unit quaternions are in the quantifier) the extracted angles are %s, off by %s rad: quaternion and '
+                        'Euler angles do not describe the same rotation' % (rv, pv, yv, k, [str(sp.N(g_, 8)) for g_ in got], sp.N(err, 3)))
+            n_ok += 1
+    return ('agrees', 'it returns the angles of %d witness quaternions (unit and non-unit), which is not a proof' % n_ok)
 
 
 def factors(e):
@@ -155,6 +207,60 @@ def check_extraction(fx, R, S):
         R.undecided('R3', 'rotation3DToEulerAngles<%s>' % S, str(u))
         return
     loc = fx.rel(f['loc'])
+    if len(sts) > 1 and all(isinstance(st_.ret, sp.MatrixBase) for st_ in sts):
+        # several paths: each path is tried on witness angles of the quantifier (|pitch| <= pi/2 - 1e-3, boundary included) that satisfy its
+        # conditions; the extracted angles must be the witness angles modulo 2 pi.  The path taken by generic angles gets the symbolic rule.
+        generic = None
+        import itertools
+        lim = sp.pi / 2 - sp.Rational(1, 1000)
+        pitches = [sp.Integer(0), sp.Rational(1, 2), -sp.Rational(6, 5), lim, -lim, lim - sp.Rational(1, 5000), -(lim - sp.Rational(1, 5000))]
+        two_pi = 2 * sp.pi
+        unmod = lambda e_: e_.replace(lambda x: isinstance(x, sp.core.function.AppliedUndef) and len(x.args) == 1 and str(x.func) == 'mod2pi', lambda x: x.args[0] - two_pi * sp.floor(x.args[0] / two_pi))
+        for st_ in sts:
+            desc = ' && '.join(('' if c[2] else '!') + '(' + c[0] + ')' for c in st_.cond)
+            reached, bad, unknown = 0, None, False
+            for (rv, pv, yv) in itertools.product((sp.Rational(3, 10), -sp.Rational(2, 5)), pitches, (sp.Rational(-2, 5), sp.Rational(11, 10))):
+                env = {r: rv, p: pv, y: yv}
+                ok = True
+                for c in st_.cond:
+                    if c[0] in ('True', 'False') or not isinstance(c[1], sp.Basic):
+                        continue
+                    v = c[1].subs(env)
+                    if v not in (sp.true, sp.false) and hasattr(v, 'lhs'):
+                        v = v.func(sp.N(v.lhs, 40), sp.N(v.rhs, 40))
+                    if v not in (sp.true, sp.false):
+                        ok = None
+                        break
+                    if bool(v) != c[2]:
+                        ok = False
+                        break
+                if ok is None:
+                    unknown = True
+                    continue
+                if not ok:
+                    continue
+                reached += 1
+                if pv == sp.Rational(1, 2):
+                    generic = st_
+                got = [sp.N(unmod(st_.ret[k, 0]).subs(env), 40) for k in range(3)]
+                want = [sp.N(a_ - two_pi * sp.floor(a_ / two_pi), 40) for a_ in (rv, pv, yv)]
+                err = max(min(abs(g_ - w_), abs(abs(g_ - w_) - sp.N(two_pi, 40))) for g_, w_ in zip(got, want))
+                if err > sp.Float('1e-9') and bad is None:
+                    bad = (rv, pv, yv, [sp.N(g_, 8) for g_ in got], sp.N(err, 3))
+            inst = 'rotation3DToEulerAngles<%s>:path[%s]' % (S, desc)
+            if bad:
+                R.violated('R3', 'rotation3DToEulerAngles:special-path', 'on the path [%s] the angles (roll %s, pitch %s = pi/2 - %s, yaw %s) - inside the quantifier, |pitch| <= pi/2 - 1e-3 - come back as %s '
+                           '(error %s rad modulo 2 pi): angles -> rotation -> angles is not the identity there [%s]' % (desc, bad[0], sp.N(bad[1], 8), sp.N(sp.pi / 2 - abs(bad[1]), 4), bad[2], bad[3], bad[4], S), loc, 'E-ORD')
+            elif unknown:
+                R.undecided('R3', inst, 'path condition not evaluable on the witness angles')
+            elif reached == 0:
+                R.holds('R3', inst, 'not taken by any witness of the quantifier (boundary pitches +-(pi/2 - 1e-3) included)', loc, 'E-ORD')
+            elif st_ is not generic:
+                R.undecided('R3', inst, 'special path reached inside the quantifier; agrees on %d witness angle triples (not a proof)' % reached)
+        if generic is None:
+            R.undecided('R3', 'rotation3DToEulerAngles<%s>' % S, 'no path is taken by generic angles')
+            return
+        sts = [generic]
     if len(sts) != 1 or not isinstance(sts[0].ret, sp.MatrixBase):
         R.undecided('R3', 'rotation3DToEulerAngles<%s>' % S, 'result not readable as a vector')
         return
